@@ -43,6 +43,7 @@ NPROC = min(16, os.cpu_count() or 4)
 IMPORTANT_KEYS = {"DescendantFonts", "Kids", "Contents", "Resources", "Font", "Encoding", "ToUnicode", "W", "Widths",
                   "Length", "Filter", "DecodeParms", "Root", "Pages", "Prev", "XRefStm", "Index", "Encrypt", "ID",
                   "N", "First"}
+ELEMENT_PARENTS = {"DW2", "W2", "W", "Widths", "FontMatrix", "FontBBox", "BBox", "Matrix", "MediaBox"}
 REF_PARENTS = {"XObject", "Font", "Kids", "Contents", "DescendantFonts"}
 IMPORTANT_SITES_PER_ROLE = 1
 # quick tier: faults sampled per (seed, class, kind) stratum
@@ -121,8 +122,11 @@ def sample_faults(faults, seed, descs):
     for d in descs:
         per_role = collections.Counter()
         for x in d["sites"]:
-            key = x["id"].rsplit("/", 1)[-1]
-            if "/" in x["id"] and key in IMPORTANT_KEYS:
+            parts = x["id"].split("/")
+            key = parts[-1]
+            if len(parts) > 2 and parts[-2] in ELEMENT_PARENTS:
+                key = parts[-2] + "[]"          # the elements of these arrays are read one by one
+            if "/" in x["id"] and (key in IMPORTANT_KEYS or key.endswith("[]")):
                 role = (key, x["id"].split(":")[0])
                 per_role[role] += 1
                 if per_role[role] <= IMPORTANT_SITES_PER_ROLE:
